@@ -396,6 +396,11 @@ fn csv_view(dir: &std::path::Path, chains: usize) -> Vec<J> {
     let mut out = vec![];
     for c in 0..chains {
         let p = dir.join(format!("chain_{c}.csv"));
+        if std::fs::symlink_metadata(&p).map(|m| m.file_type().is_symlink()).unwrap_or(false) {
+            // the failing sink of the C13 scenario (a link to /dev/full): nothing to read back
+            out.push(json!({"group": "csv", "chain": c, "missing": true}));
+            continue;
+        }
         let Ok(text) = std::fs::read_to_string(&p) else {
             out.push(json!({"group": "csv", "chain": c, "missing": true}));
             continue;
@@ -620,6 +625,11 @@ fn run_scenario<S: Settings>(sc: &J, idx: usize) -> J {
             "csv" => {
                 let dir = std::path::PathBuf::from(format!("{}/csv_{}_{}", sc["workdir"].as_str().unwrap_or("/verif/work/storage"), std::process::id(), idx));
                 let _ = std::fs::remove_dir_all(&dir);
+                // C13: a sink that rejects every write for one chain (its file is a link to /dev/full)
+                if let Some(k) = sc["devfull"].as_u64() {
+                    std::fs::create_dir_all(&dir).map_err(|e| e.to_string())?;
+                    std::os::unix::fs::symlink("/dev/full", dir.join(format!("chain_{k}.csv"))).map_err(|e| e.to_string())?;
+                }
                 let cfg = CsvConfig::new(&dir).store_warmup(store_warmup).with_precision(sc["precision"].as_u64().unwrap_or(6) as usize);
                 let d2 = dir.clone();
                 let r = drive(&ctx, cfg, &move |_fin: &()| csv_view(&d2, chains), &none_reader, &mut events);
